@@ -15,3 +15,6 @@ static void dec_name(struct Obj *o, const char *s) { free(o->name); o->name = st
 static const dec_fn dec_table[] = { dec_path, dec_name };
 struct Obj *ctor_ok(const char *s, int k) { struct Obj *o = calloc(1, sizeof *o); if (o == NULL) return NULL; set_path(o, s); dec_table[k](o, s); return o; }
 struct Obj *ctor_bad(const char *s, int k) { struct Obj *o = calloc(1, sizeof *o); if (o == NULL) return NULL; dec_table[k](o, s); set_path(o, s); return o; }
+/* a constructor returning `object or NULL` through one merged return: the failure way must release (OWN reads the return phi by the edge taken) */
+char *new_bad(int n) { char *p = malloc(n); if (p == NULL) return NULL; if (n == 7 || work(p)) return p; return NULL; }
+char *new_ok(int n) { char *p = malloc(n); if (p == NULL) return NULL; if (n != 7 && !work(p)) { free(p); return NULL; } return p; }
